@@ -3,9 +3,30 @@
    message), RFC 8439 section 2.3.2 (ChaCha20 block), 2.5.2 (Poly1305), 2.8.2 (AEAD), the zbase32
    vectors of lightning::util::base32, and the repository's own encrypt/decrypt vector
    (teos-common/src/cryptography.rs tests: HEX_TX, HEX_TXID, ENC_BLOB). *)
-From Coq Require Import String.
+From Coq Require Import String Ascii.
 From TeosModel Require Import Base BtcCodec Crypto.
+
+(* text and hex notation for the vectors (kept out of the model so that Coq's `string` type is
+   not part of the extracted code) *)
+Definition bytes_of_string (s : string) : bytes := map N_of_ascii (list_ascii_of_string s).
+
+Definition hexdigit (a : ascii) : N :=
+  let n := N_of_ascii a in
+  if (48 <=? n) && (n <=? 57) then n - 48
+  else if (97 <=? n) && (n <=? 102) then n - 87
+  else if (65 <=? n) && (n <=? 70) then n - 55 else 0.
+Fixpoint hex_bytes (s : string) : bytes :=
+  match s with
+  | String a (String b r) => (16 * hexdigit a + hexdigit b) :: hex_bytes r
+  | _ => []
+  end.
+
 Local Open Scope string_scope.
+
+Example text_constants :
+  ZBASE_ALPHABET = bytes_of_string "ybndrfg8ejkmcpqxot1uwisza345h769" /\
+  LN_MESSAGE_PREFIX = bytes_of_string "Lightning Signed Message:".
+Proof. split; reflexivity. Qed.
 
 Example sha256_abc :
   sha256 (bytes_of_string "abc") = hex_bytes "ba7816bf8f01cfea414140de5dae2223b00361a396177a9cb410ff61f20015ad".
